@@ -25,6 +25,7 @@ import Driver.OpsServe
 import Driver.OpsLegal
 import Driver.OpsMCTSPolicy
 import Driver.OpsCmd
+import Driver.OpsCmd2
 import Driver.OpsCompose
 namespace Driver
 
@@ -55,6 +56,7 @@ def handlers : List Handler := [
   handleLegal,
   handleMCTSPolicy,
   handleCmd,
+  handleCmd2,
   handleCompose,
 ]
 
